@@ -41,6 +41,9 @@ def fs(x):
     return "%d/%d" % (x.numerator, x.denominator)
 
 
+BILINEAR = [False]      # mode of the current case, see g_bilinear
+
+
 class Unsafe(Exception):
     pass
 
@@ -188,7 +191,10 @@ def rconst(rng, integer, positive=False):
     k = rng.choice([1, 2, 3, 4, 5, 6, 8])
     if not positive and rng.random() < 0.4:
         k = -k
-    return ["c", fs(Fr(k, 1 if integer else rng.choice([1, 1, 2, 4])))]
+    c = Fr(k, 1 if integer else rng.choice([1, 1, 2, 4]))
+    if abs(c) == 2 and "BILINEAR" in globals() and BILINEAR[0]:
+        c = c * 3 / 2          # 2*x becomes CasADi's OP_TWICE, which the allowed-operation test rejects
+    return ["c", fs(c)]
 
 
 def g_aff(rng, slots, d, integer):
@@ -209,7 +215,38 @@ def g_aff(rng, slots, d, integer):
     return ["neg", g_aff(rng, slots, d - 1, integer)]
 
 
+def g_safe_aff(rng, slots, integer):
+    """affine shapes whose CasADi instructions stay inside the allowed set (no x+x / 2*x -> OP_TWICE,
+    no x*x -> OP_SQ)"""
+    s = rng.choice(slots)
+    p = ["p", s[0], s[1]]
+
+    def c():
+        while True:
+            k = rconst(rng, integer)
+            if abs(fr(k[1])) not in (1, 2):
+                return k
+    form = rng.choice(["p", "neg", "+c", "-c", "c-", "c*", "c*+c"] + ([] if integer else ["/c"]))
+    if form == "p":
+        return p
+    if form == "neg":
+        return ["neg", p]
+    if form == "+c":
+        return ["+", p, c()]
+    if form == "-c":
+        return ["-", p, c()]
+    if form == "c-":
+        return ["-", c(), p]
+    if form == "c*":
+        return ["*", c(), p]
+    if form == "/c":
+        return ["/", p, ["c", fs(rng.choice([Fr(4), Fr(8)]))]]
+    return ["+", ["*", c(), p], c()]
+
+
 def g_aff_p(rng, slots, d, integer):
+    if BILINEAR[0]:
+        return g_safe_aff(rng, slots, integer)
     for _ in range(50):
         t = g_aff(rng, slots, d, integer)
         if has_param(t) and not degenerate(t):
@@ -234,9 +271,31 @@ def g_non(rng, slots, d, integer):
     return ["*", rconst(rng, integer), ["^", g_aff_p(rng, slots, 1, integer), 2]]
 
 
+#                         mode of the current case: non-affine expressions use products only (no sq/pow/division
+                        # by an expression), so that CasADi's allowed-operation test passes and only the Hessian
+                        # test stands between the expression and the affine rebuild
+
+
+def g_bilinear(rng, slots, integer):
+    while True:
+        a, b = g_safe_aff(rng, slots, integer), g_safe_aff(rng, slots, integer)
+        if a != b and not (a[0] == "neg" and b[0] == "neg") and (a[0] != "p" or b[0] != "p"):
+            break
+    t = ["*", a, b]
+    r = rng.random()
+    if r < 0.3:
+        t = [rng.choice(["+", "-"]), t, g_safe_aff(rng, slots, integer)]
+    return t
+
+
 def gen_expr(rng, slots, integer, want_affine):
     for _ in range(100):
-        t = g_aff_p(rng, slots, rng.choice([1, 2, 2, 3]), integer) if want_affine else g_non(rng, slots, 2, integer)
+        if want_affine:
+            t = g_aff_p(rng, slots, rng.choice([1, 2, 2, 3]), integer)
+        elif BILINEAR[0]:
+            t = g_bilinear(rng, slots, integer)
+        else:
+            t = g_non(rng, slots, 2, integer)
         if degenerate(t) or syn_affine(t) != want_affine:
             continue
         return t
@@ -418,6 +477,14 @@ def gen_attr(rng, v, a, P, mode, arrlit_exp=False):
 
 
 def gen_case(rng, kind):
+    BILINEAR[0] = kind == "single_bilinear"
+    try:
+        return gen_case_(rng, kind)
+    finally:
+        BILINEAR[0] = False
+
+
+def gen_case_(rng, kind):
     P = []
     mode = {"single_affine": "affine", "none": "lit", "known_shape": "mixed"}.get(kind, "mixed")
 
@@ -439,7 +506,7 @@ def gen_case(rng, kind):
             elif r < 0.85 or kind == "subst":
                 t = "I" if T == "Integer" else rng.choice(["R", "I"])
                 p["attrs"]["value"] = lit(t, rlitval(rng, t))
-        if T != "Boolean" and len(dims) < 2 and kind not in ("single_affine", "single_mixed", "subst"):
+        if T != "Boolean" and len(dims) < 2 and kind not in ("single_affine", "single_mixed", "single_bilinear", "subst"):
             for a in ("min", "max", "nominal"):
                 if rng.random() < 0.15:
                     p["attrs"][a] = gen_attr(rng, p, a, P, "mixed")
@@ -447,9 +514,9 @@ def gen_case(rng, kind):
             p["attrs"].pop("value", None)        # stays a free parameter after replace_parameter_values
         return p
 
-    if kind in ("single_affine", "single_mixed"):
+    if kind in ("single_affine", "single_mixed", "single_bilinear"):
         r = rng.random()
-        if r < 0.55:
+        if r < 0.55 or kind == "single_bilinear":
             P.append(mkparam("p", "Real", []))
         elif r < 0.85:
             P.append(mkparam("pa", "Real", [rng.choice([2, 3])]))
@@ -473,6 +540,8 @@ def gen_case(rng, kind):
              ("y", "alg", "Real", [pa_n]), ("z", "alg", "Real", [2]), ("i", "alg", "Integer", []),
              ("j", "alg", "Integer", [2]), ("b", "alg", "Boolean", []), ("u", "input", "Real", []),
              ("w", "alg", "Real", []), ("c", "constant", "Real", []), ("kc", "constant", "Integer", [])]
+    if kind == "single_bilinear":      # symbolic attributes on scalars only (repmat is not an allowed operation)
+        vpool = [v for v in vpool if not v[3] or v[2] == "Integer"]
     rng.shuffle(vpool)
     V = []
     for nm, cat, T, dims in vpool[:rng.randint(2, 5)]:
@@ -943,7 +1012,8 @@ def run(ctx):
     ctx.notes["source_fingerprint"] = {"model.py": fp, "generator.py": fp2}
 
     # ---- cases
-    mix = [("single_affine", ctx.scaled(14, 150)), ("single_mixed", ctx.scaled(8, 90)), ("multi", ctx.scaled(22, 260)),
+    mix = [("single_affine", ctx.scaled(12, 150)), ("single_mixed", ctx.scaled(6, 90)), ("single_bilinear", ctx.scaled(8, 60)),
+           ("multi", ctx.scaled(18, 260)),
            ("none", ctx.scaled(4, 30)), ("subst", ctx.scaled(8, 80)), ("known_shape", ctx.scaled(4, 30))]
     cases = []
     try:
